@@ -75,7 +75,7 @@ def cases(ctx):
         q["out"] = [r.random() < 0.3 for _ in q["out"]]
         for inputs in (False, True):
             yield {"op": "remove_unloaded", "c": q, "inputs": inputs, "src": "DAG5"}
-    if not ctx.quick and ctx.hashseed == 0:
+    if ctx.hashseed == 0:
         yield {"op": "remove_unloaded", "c": deep_chain(1100), "inputs": False, "src": "DEEP"}     # deeper than Python's recursion limit
     for j in range(150 if ctx.quick else 3000):
         r = ctx.rng("C16g3", j)
